@@ -271,7 +271,10 @@ if _os.path.isdir(_SEEDED):
             _base = None
             try:
                 import json as _json
-                _base = _json.load(open(_os.path.join(_SEEDED, _sid, "meta.json"))).get("base")
+                _meta = _json.load(open(_os.path.join(_SEEDED, _sid, "meta.json")))
+                _base = _meta.get("base")
+                if _meta.get("superseded"):
+                    continue  # broke the property only through a defect that has been repaired since (see its meta.json)
             except Exception:
                 pass
             CORPUS.append({"name": f"seeded-{_sid}", "props": [_m.group(0)], "kind": "break", "edits": [],
